@@ -10,6 +10,7 @@ use super::*;
 use crate::verif_kani::env::{self, any_millis};
 use crate::verif_kani::svc;
 use std::task::Poll;
+use std::panic::catch_unwind;
 
 impl SharedRateLimiter {
     /// another caller's try_acquire on the shared state (harness interference)
@@ -36,7 +37,7 @@ fn any_fixed() -> FixedWindowState {
     kani::assume(start <= env::now());
     FixedWindowState {
         limit_for_period: limit,
-        refresh_period: any_millis(100_000),
+        refresh_period: { let p = any_millis(100_000); kani::assume(p > Duration::ZERO); p },
         timeout_duration: any_millis(300_000),
         available_permits: avail,
         period_start: env::instant_at(start),
@@ -48,6 +49,7 @@ fn any_fixed() -> FixedWindowState {
 /// and starts a window with `limit` permits; every grant consumes one permit
 /// of the current window; nothing else creates permits.
 #[kani::proof]
+#[kani::unwind(4)]
 #[kani::stub(std::time::Instant::now, env::now_stub)]
 fn fixed_window_step() {
     init_clock();
@@ -87,6 +89,7 @@ fn fixed_window_step() {
 /// After two idle periods the next `limit` calls are granted at once (here:
 /// the first one is, and leaves limit-1 permits; induction by the step above).
 #[kani::proof]
+#[kani::unwind(4)]
 #[kani::stub(std::time::Instant::now, env::now_stub)]
 fn fixed_idle_recovers() {
     init_clock();
@@ -99,11 +102,10 @@ fn fixed_idle_recovers() {
 }
 
 // ------------------------------------------------------------------ sliding log
-/// `n` = concrete number of entries in the pre-log (symbolic VecDeque lengths
-/// exhaust the solver); entries sorted, <= now.
-fn any_log(n: usize) -> SlidingLogState {
-    let limit: usize = kani::any();
-    kani::assume(limit >= 1 && limit <= 3 && n <= limit);
+/// `limit` and `n` (number of entries in the pre-log) are CONCRETE harness
+/// parameters: symbolic VecDeque capacities/lengths exhaust the solver's
+/// memory.  Entries are sorted and <= now, their values symbolic.
+fn any_log(limit: usize, n: usize) -> SlidingLogState {
     let mut s = SlidingLogState::new(limit, any_millis(100_000), any_millis(300_000));
     let mut t = Duration::ZERO;
     let mut i = 0;
@@ -115,9 +117,9 @@ fn any_log(n: usize) -> SlidingLogState {
     }
     s
 }
-fn sliding_log_step(n: usize) {
+fn sliding_log_step(limit_c: usize, n: usize) {
     init_clock();
-    let mut s = any_log(n);
+    let mut s = any_log(limit_c, n);
     let (limit, window, timeout) = (s.limit_for_period, s.window_duration, s.timeout_duration);
     let mut pre = [now_i(); 3];
     let mut i = 0;
@@ -157,42 +159,61 @@ fn sliding_log_step(n: usize) {
         }
     }
     assert!(post_len <= limit, "[C02.log_invariant] at most limit grants inside any window");
-    kani::cover!(granted && dropped > 0, "grant after expiry");
-    kani::cover!(r.is_err(), "reject path");
+    kani::cover!(granted, "grant reachable");
     std::mem::forget(s);
 }
 #[kani::proof]
-#[kani::unwind(5)]
+#[kani::unwind(6)]
 #[kani::stub(std::time::Instant::now, env::now_stub)]
-fn sliding_log_step_n0() { sliding_log_step(0) }
+fn sliding_log_step_l1_n0() { sliding_log_step(1, 0) }
 #[kani::proof]
-#[kani::unwind(5)]
+#[kani::unwind(6)]
 #[kani::stub(std::time::Instant::now, env::now_stub)]
-fn sliding_log_step_n1() { sliding_log_step(1) }
+fn sliding_log_step_l1_n1() { sliding_log_step(1, 1) }
 #[kani::proof]
-#[kani::unwind(5)]
+#[kani::unwind(6)]
 #[kani::stub(std::time::Instant::now, env::now_stub)]
-fn sliding_log_step_n2() { sliding_log_step(2) }
+fn sliding_log_step_l2_n1() { sliding_log_step(2, 1) }
 #[kani::proof]
-#[kani::unwind(5)]
+#[kani::unwind(6)]
 #[kani::stub(std::time::Instant::now, env::now_stub)]
-fn sliding_log_step_n3() { sliding_log_step(3) }
+fn sliding_log_step_l2_n2() { sliding_log_step(2, 2) }
+#[kani::proof]
+#[kani::unwind(6)]
+#[kani::stub(std::time::Instant::now, env::now_stub)]
+fn sliding_log_step_l3_n2() { sliding_log_step(3, 2) }
+#[kani::proof]
+#[kani::unwind(6)]
+#[kani::stub(std::time::Instant::now, env::now_stub)]
+fn sliding_log_step_l3_n3() { sliding_log_step(3, 3) }
 
 // ------------------------------------------------------------------ sliding counter
-fn any_counter() -> SlidingCounterState {
+/// Whole-second instants and durations for the sliding counter: its f64 ratio
+/// arithmetic over nanosecond-precise symbolic durations did not finish in 15
+/// minutes; with whole seconds the `nanos / 1e9` terms fold to constants.
+fn whole_secs(max: u64) -> Duration {
+    let s: u64 = kani::any();
+    kani::assume(s <= max);
+    Duration::new(s, 0)
+}
+fn init_clock_secs() {
+    env::set_now(whole_secs(500));
+    tokio::model::set_now(env::now());
+}
+fn any_counter(max_limit: usize) -> SlidingCounterState {
     let limit: usize = kani::any();
-    kani::assume(limit >= 1 && limit <= 1000);
+    kani::assume(limit >= 1 && limit <= max_limit);
     let prev: usize = kani::any();
     let cur: usize = kani::any();
     kani::assume(prev <= limit && cur <= limit);
-    let start = any_millis(500_000);
+    let start = whole_secs(500);
     kani::assume(start <= env::now());
-    let bucket = any_millis(100_000);
+    let bucket = whole_secs(100);
     kani::assume(bucket > Duration::ZERO);
     SlidingCounterState {
         limit_for_period: limit,
         bucket_duration: bucket,
-        timeout_duration: any_millis(300_000),
+        timeout_duration: whole_secs(300),
         previous_count: prev,
         current_count: cur,
         bucket_start: env::instant_at(start),
@@ -201,11 +222,9 @@ fn any_counter() -> SlidingCounterState {
 /// Windows = buckets: a bucket is rotated only `>= bucket_duration` after it
 /// started; every grant is counted in the current bucket; a bucket never holds
 /// more than `limit` grants.
-#[kani::proof]
-#[kani::stub(std::time::Instant::now, env::now_stub)]
-fn sliding_counter_step() {
-    init_clock();
-    let mut s = any_counter();
+fn sliding_counter_step(max_limit: usize) {
+    init_clock_secs();
+    let mut s = any_counter(max_limit);
     let (limit, bucket) = (s.limit_for_period, s.bucket_duration);
     let (prev0, cur0, start0) = (s.previous_count, s.current_count, s.bucket_start);
     let elapsed = now_i().duration_since(start0);
@@ -236,93 +255,123 @@ fn sliding_counter_step() {
     kani::cover!(r.is_err(), "reject reachable");
 }
 #[kani::proof]
+#[kani::unwind(4)]
 #[kani::stub(std::time::Instant::now, env::now_stub)]
 fn counter_idle_recovers() {
-    init_clock();
-    let mut s = any_counter();
+    init_clock_secs();
+    let mut s = any_counter(1000);
     let idle = now_i().duration_since(s.bucket_start);
-    kani::assume(idle >= s.bucket_duration + s.bucket_duration + Duration::from_millis(1));
+    kani::assume(idle >= s.bucket_duration + s.bucket_duration + Duration::from_secs(1));
     let r = s.try_acquire();
     assert!(r == Ok(Duration::ZERO) && s.current_count == 1 && s.previous_count == 0,
         "[C15.idle_recovers_full_capacity] after two idle periods the limiter is empty again");
 }
 
-// ------------------------------------------------------------------ acquire(): one waiter against interference
-/// "admitted => holds a grant": one real `acquire()` future on a fixed-window
-/// limiter; between its polls the clock moves arbitrarily and other callers
-/// perform arbitrary `try_acquire`s on the shared state (each a real call).
-/// acquire() returns Ok  <=>  ITS OWN try_acquire took a permit in that poll.
+// ------------------------------------------------------------------ acquire(): protocol against a scripted window state
+// The real `acquire()` future driven through the shared `Arc<Mutex<RateLimiterStateInner>>`
+// makes CBMC explore all three window implementations at every try_acquire (the
+// enum discriminant is not constant once it lives on the heap) and exhausts 45 GB
+// even for one fully concrete poll.  So `RateLimiterStateInner::try_acquire` is
+// stubbed by a script: it returns arbitrary results (any of Ok(ZERO), Ok(wait),
+// Err) and counts its calls.  What is decided here is acquire()'s own logic for
+// EVERY sequence of try_acquire answers; what the answers mean is decided by the
+// window-state harnesses above.
+struct Ta {
+    magic: [u64; 2],
+    results: [AcquireResult; 3],
+    calls: u32,
+    times: [Duration; 3],
+}
+static mut TA: Ta = Ta { magic: [0x5452595f41435155, 0x4952455f53435249], results: [Ok(Duration::ZERO); 3], calls: 0, times: [Duration::ZERO; 3] };
+fn ta() -> &'static mut Ta {
+    unsafe { &mut *core::ptr::addr_of_mut!(TA) }
+}
+fn scripted_try_acquire(_s: &mut RateLimiterStateInner) -> AcquireResult {
+    let t = ta();
+    let i = (t.calls as usize).min(2);
+    t.times[i] = env::now();
+    t.calls += 1;
+    t.results[i]
+}
+/// entry points for the service-level wiring harness (verif_kani::c02)
+pub(crate) fn model_script_try_acquire() {
+    ta().results = [any_result(), any_result(), any_result()];
+}
+pub(crate) fn model_scripted_try_acquire(s: &mut RateLimiterStateInner) -> AcquireResult {
+    scripted_try_acquire(s)
+}
+pub(crate) fn model_last_try_granted() -> bool {
+    let n = ta().calls as usize;
+    n >= 1 && ta().results[(n - 1).min(2)] == Ok(Duration::ZERO)
+}
+fn any_result() -> AcquireResult {
+    let d = any_millis(300_000);
+    if kani::any() { Ok(d) } else { Err(d) }
+}
+
 #[kani::proof]
 #[kani::unwind(4)]
 #[kani::stub(std::time::Instant::now, env::now_stub)]
-fn acquire_admitted_iff_granted_fixed() {
+#[kani::stub(RateLimiterStateInner::try_acquire, scripted_try_acquire)]
+fn acquire_protocol() {
     init_clock();
-    let limit: usize = kani::any();
-    kani::assume(limit >= 1 && limit <= 3);
-    let period = any_millis(100_000);
-    let timeout = any_millis(300_000);
-    let l = SharedRateLimiter::new(WindowType::Fixed, limit, period, timeout);
-    // arbitrary reachable state left by earlier callers
-    {
-        let mut g = l.state.lock().unwrap();
-        if let RateLimiterStateInner::Fixed(f) = &mut *g {
-            let a: usize = kani::any();
-            kani::assume(a <= limit);
-            f.available_permits = a;
-        }
-    }
-    let snapshot = |l: &SharedRateLimiter| -> (usize, Instant) {
-        let g = l.state.lock().unwrap();
-        match &*g {
-            RateLimiterStateInner::Fixed(f) => (f.available_permits, f.period_start),
-            _ => (0, now_i()),
-        }
-    };
+    ta().results = [any_result(), any_result(), any_result()];
+    let l = SharedRateLimiter::new(WindowType::Fixed, 1, Duration::from_secs(1), Duration::from_secs(1));
+    let t0 = env::now();
     let mut fut = Box::pin(l.acquire());
-    let mut took: u32 = 0;
     let mut out = None;
-    let mut step = 0;
-    while step < 3 {
-        let (a0, s0) = snapshot(&l);
+    let mut polls = 0;
+    while polls < 3 {
         let p = svc::poll_once(fut.as_mut());
-        let (a1, s1) = snapshot(&l);
-        let consumed = (s1 == s0 && a1 + 1 == a0) || (s1 != s0 && a1 + 1 == limit);
-        if consumed {
-            took += 1;
-        } else {
-            assert!(a1 == a0 || s1 != s0, "[C02.acquire_only_takes] acquire never changes the permit count except by taking one");
-        }
+        polls += 1;
         if let Poll::Ready(r) = p {
             out = Some(r);
             break;
         }
-        assert!(!consumed, "[C02.pending_holds_nothing] a waiting caller holds no permit");
-        // environment: time passes, other callers take permits
-        let d = any_millis(200_000);
+        // pending: it is sleeping for exactly the wait the first try_acquire returned
+        assert!(ta().calls == 1 && tokio::model::st().sleeps_created == 1, "[C15.pending_only_while_waiting] a pending acquire has asked once and is sleeping");
+        let w = match ta().results[0] { Ok(w) => w, Err(_) => Duration::ZERO };
+        assert!(matches!(ta().results[0], Ok(x) if x > Duration::ZERO) && tokio::model::st().last_sleep_duration == w,
+            "[C15.sleeps_the_offered_wait] acquire sleeps exactly the wait it was offered");
+        let d = any_millis(400_000);
         env::advance(d);
         tokio::model::advance(d);
-        let others: u8 = kani::any();
-        let mut k = 0;
-        while k < 2 {
-            if others & (1 << k) != 0 {
-                let _ = l.state.lock().unwrap().try_acquire();
-            }
-            k += 1;
+        if env::now() < t0 + w {
+            // woken early: must keep waiting without asking again
+        } else if polls == 2 {
+            // nothing
         }
-        step += 1;
     }
+    let n = ta().calls as usize;
+    assert!(n >= 1 && n <= 2, "[C15.at_most_two_tries] acquire asks the window at most twice (once, and once after its single sleep)");
+    assert!(tokio::model::st().sleeps_created <= 1, "[C15.one_sleep] at most one sleep per call");
     if let Some(r) = out {
+        let last = ta().results[n - 1];
         match r {
-            Ok(_) => assert!(took == 1, "[C02.admitted_holds_a_grant] a caller is admitted only if its own try_acquire consumed a permit"),
-            Err(()) => assert!(took == 0, "[C15.rejected_took_nothing] a rejected caller consumed no permit"),
+            Ok(_) => assert!(last == Ok(Duration::ZERO), "[C02.admitted_holds_a_grant] a caller is admitted only if its last try_acquire consumed a permit (returned Ok(ZERO))"),
+            Err(()) => assert!(last != Ok(Duration::ZERO), "[C15.granted_is_admitted] a caller whose try_acquire consumed a permit is admitted"),
         }
-        assert!(tokio::model::st().sleeps_created <= 1, "[C15.one_sleep] at most one sleep per call");
-        if tokio::model::st().sleeps_created == 1 {
-            assert!(tokio::model::st().last_sleep_duration <= timeout, "[C15.decided_within_timeout] a caller never waits longer than timeout_duration");
+        if n == 2 {
+            let w = match ta().results[0] { Ok(w) => w, Err(_) => Duration::ZERO };
+            assert!(ta().times[1] >= ta().times[0] + w, "[C02.second_try_after_wait] the second try happens only after the offered wait has elapsed");
+        } else {
+            assert!(!matches!(ta().results[0], Ok(x) if x > Duration::ZERO), "[C15.waits_when_offered] an offered wait is taken");
+            assert!(polls == 1, "[C15.immediate_decision] without an offered wait the decision is immediate");
         }
     }
-    kani::cover!(matches!(out, Some(Ok(_))) && tokio::model::st().sleeps_created == 1, "admitted after waiting");
-    kani::cover!(matches!(out, Some(Err(()))) && tokio::model::st().sleeps_created == 1, "rejected after waiting (permit taken by others)");
-    drop(fut);
+    kani::cover!(n == 2 && matches!(out, Some(Err(()))) && matches!(ta().results[1], Ok(x) if x > Duration::ZERO), "waiter finds the permit gone and is rejected");
+    kani::cover!(n == 2 && matches!(out, Some(Ok(_))), "waiter admitted");
+    std::mem::forget(fut);
     std::mem::forget(l);
+}
+
+/// RateLimiter::call wiring (body in verif_kani::c02; the proof lives here so the
+/// private `RateLimiterStateInner::try_acquire` can be named in the stub attribute).
+#[kani::proof]
+#[kani::unwind(5)]
+#[kani::stub(std::time::Instant::now, env::now_stub)]
+#[kani::stub(catch_unwind, env::catch_unwind_stub)]
+#[kani::stub(RateLimiterStateInner::try_acquire, scripted_try_acquire)]
+fn call_wiring() {
+    crate::verif_kani::c02::one_call(WindowType::Fixed)
 }
